@@ -538,7 +538,7 @@ def gen_scenario(rnd):
     client = rnd.choice(["generic", "generic", "binance", "bitstamp_public", "bitstamp_private"])
     names = ["a", "b", "c", "d"]
     if client == "binance":
-        names = ["btcusdt@trade", "ethusdt@depth10", "user", "bnbusdt@kline_1m"]
+        names = ["btcusdt@trade", "ethusdt@depth10", "user", "bnbusdt@kline_1m", "bnbusdt@kline_1M"]   # minute and month
     initial = rnd.sample(names, rnd.randint(1, 2))
     rest = [n for n in names if n not in initial]
     regs = sorted((round(rnd.uniform(0.5, 60), 3), n) for n in rnd.sample(rest, rnd.randint(0, len(rest))))
